@@ -115,6 +115,9 @@ namespace TAO_PEGTL_NAMESPACE
 
       [[nodiscard]] char peek_char( const std::size_t offset = 0 ) const noexcept
       {
+#if defined( TAO_PEGTL_VERIF )
+         TAO_PEGTL_VERIF_PEEK( m_current.data, offset, m_end );
+#endif
          return m_current.data[ offset ];
       }
 
@@ -125,16 +128,25 @@ namespace TAO_PEGTL_NAMESPACE
 
       void bump( const std::size_t in_count = 1 ) noexcept
       {
+#if defined( TAO_PEGTL_VERIF )
+         TAO_PEGTL_VERIF_BUMP( m_current.data, in_count, m_end );
+#endif
          internal::bump( m_current, in_count, Eol::ch );
       }
 
       void bump_in_this_line( const std::size_t in_count = 1 ) noexcept
       {
+#if defined( TAO_PEGTL_VERIF )
+         TAO_PEGTL_VERIF_BUMP( m_current.data, in_count, m_end );
+#endif
          internal::bump_in_this_line( m_current, in_count );
       }
 
       void bump_to_next_line( const std::size_t in_count = 1 ) noexcept
       {
+#if defined( TAO_PEGTL_VERIF )
+         TAO_PEGTL_VERIF_BUMP( m_current.data, in_count, m_end );
+#endif
          internal::bump_to_next_line( m_current, in_count );
       }
 
